@@ -8,12 +8,12 @@ import blockrun
 import configs
 
 
-def correspond(cases, tag, kernel_sample=30):
+def correspond(cases, tag, kernel_sample=30, support=supported):
     """cases: list of (cfg, api, src, env or None).  Returns (n_run, disagreements, kn, kbad, lines)"""
     lines, exps, kept = [], [], []
     for cfg, api, src, env in cases:
         md = configs.make_md(cfg)
-        if not supported(md):
+        if not support(md):
             continue
         try:
             src.encode("utf-8")
